@@ -15,6 +15,8 @@ C05 — Tie: what the extractor reads from the go-zero tree NOW equals what the 
 import GoZero.Extracted.C05
 import GoZero.C05.Proofs
 import GoZero.C05.ModelOpts
+import GoZero.C05.ModelWG
+import GoZero.C05.ModelCond
 namespace GoZero.C05.Tie
 open GoZero.C05
 open GoZero.Extracted.C05
@@ -367,5 +369,28 @@ theorem tie_forwarding :
 theorem tie_rescue_order :
     rescueRecoverStmts = ["for _, cleanup := range cleanups { cleanup() }",
                           "if p := recover(); p != nil { logx.ErrorStack(p) }"] := by decide
+
+/-! ## round 5c: the WorkerGroup.Start model against the source -/
+
+/-- the loop of the `WorkerGroup.Start` model IS the Go loop: the test of `WGStep.spawn / loopExit` equals the
+translated condition of `for i := 0; i < wg.workers; i++` for all values (negative and zero `workers` included), the
+model starts at `i = 0` and a spawn step is `i + 1`; the loop body is one `group.RunSafe(wg.job)` (Add before the spawn,
+Done deferred: `tie_eff_routineGroup`), followed by `group.Wait()`. -/
+theorem tie_workerGroup_model :
+    (∀ i w : Int, wgLoopTest i w = workerGroupLoopCond i w)
+    ∧ workerGroupFor = ["i := 0", "i < wg.workers", "i++"]
+    ∧ (WGSt.init 3).i = 0
+    ∧ workerGroupShape = ["call NewRoutineGroup", "for i < wg.workers {", "call group.RunSafe", "}", "call group.Wait"]
+    ∧ workerGroupFwd = ["wg.job"] := by
+  refine ⟨fun _ _ => rfl, by decide, rfl, by decide, by decide⟩
+
+/-- `Cond`: the remaining time `WaitWithTimeout` returns on the signal branch, translated from the Go expression, is the
+model's `waitResult` for all arguments; `Wait` is one receive from `cond.signal`; the value pairs per branch
+(`remainTimeout, true` / `0, false`) and the unbuffered channel are `tie_cond_channel`. -/
+theorem tie_cond_model :
+    (∀ timeout elapsed : Int, condRemainExpr timeout elapsed = (waitResult timeout (.signalled elapsed)).1)
+    ∧ condWaitPlainShape = ["recv cond.signal"]
+    ∧ (∀ d, (waitResult d .timerFired) = (0, false)) := by
+  exact ⟨fun _ _ => rfl, by decide, fun _ => rfl⟩
 
 end GoZero.C05.Tie
